@@ -72,6 +72,12 @@ CHECKS = {
         text="Generated programs (valid and with one injected semantic fault) are compiled in 7 declaration orders and must give the same verdict, code set and output; random dependency graphs over constants and structures must be accepted with the predicted values when acyclic and rejected with E413/E415/E416 when a cycle is closed; duplicate functions/constants/structures/parameters/members in every order and distance must raise E421/E423-E426; a table of types in declaration positions checks E350-E359, E380, E433.",
         note="Lexical/syntactic faults are excluded from the permutation monitor (they blur declaration boundaries). For ill-formed types any code of the E350-E359 family counts, as the property groups them.",
         design="5 C11"),
+    "C12": dict(
+        category="exploration",
+        technique="runtime monitor: metamorphic module partition x file order against the reference interpreter, visibility probes, and history monitor over one Compiler",
+        text="Generated programs are cut into 2-4 modules with the induced pub/import declarations and compiled through the multi-module path in all (or 6 random) file orders: each must be accepted and print what the reference interpreter prints; probes reference public, private and transitively imported functions/constants/structures from outside (E401/E402/E405 expected for the invisible ones); a generated module is compiled among 1-3 unrelated modules sharing builtins, private names and string literals and must behave as when compiled alone, with valid linked IR.",
+        note="The splitter adds the imports that interfaces of imported public items need (imports are not re-exported).",
+        design="5 C12"),
 }
 
 
